@@ -157,6 +157,8 @@ def corpus(kind, spec, canary, dtd_path, port, rng):
     for d in docs:
         if d['template'] in keys or (tier != 'quick' and not d['template'].startswith(('attr-flood', 'deep-nesting', 'bomb-quadratic'))):
             for fr in FRAMINGS[1:]:
+                if fr == 'multipart' and (kind == 'xml' or spec['driver'] != 'wsgi'):
+                    continue          # SOAP over HTTP only
                 if tier == 'quick' and d['pos'] not in ('text', 'elem') and fr != 'decl-utf8':
                     continue
                 framed.append(dict(d, framing=fr, template=d['template'] + '@' + fr))
@@ -168,7 +170,7 @@ def corpus(kind, spec, canary, dtd_path, port, rng):
     return docs, repl
 
 
-FRAMINGS = ('plain', 'decl-utf8', 'decl-nocharset', 'decl-latin1', 'utf16-bom')
+FRAMINGS = ('plain', 'decl-utf8', 'decl-nocharset', 'decl-latin1', 'utf16-bom', 'multipart')
 
 
 def frame(kind, doc, framing):
@@ -185,6 +187,12 @@ def frame(kind, doc, framing):
         return ('<?xml version="1.0" encoding="ISO-8859-1"?>' + doc).encode('latin-1', 'xmlcharrefreplace'), base + '; charset=iso-8859-1', 'iso-8859-1'
     if framing == 'utf16-bom':
         return ('<?xml version="1.0" encoding="UTF-16"?>' + doc).encode('utf-16'), base, None
+    if framing == 'multipart':
+        # SOAP with attachments: the envelope is the root part of a multipart/related body (takes another route to the parser)
+        b = b'vfboundary'
+        body = (b'--' + b + b'\r\nContent-Type: text/xml; charset=utf-8\r\nContent-ID: <root>\r\n\r\n' + doc.encode('utf8') + b'\r\n--' + b +
+                b'\r\nContent-Type: application/octet-stream\r\nContent-Transfer-Encoding: base64\r\nContent-ID: <att1>\r\n\r\nQUJD\r\n--' + b + b'--\r\n')
+        return body, 'multipart/related; boundary="vfboundary"; start="<root>"; type="text/xml"', None
     raise KeyError(framing)
 
 
